@@ -15,7 +15,10 @@ const RefContract = `access(all) contract C {
     access(all) var child: @R?
     access(all) var arr: @[R]
     access(all) var dict: @{Int: R}
-    init(_ n: Int) { self.n = n; self.child <- nil; self.arr <- []; self.dict <- {} }
+    access(all) var deep: @R??
+    access(all) var oarr: @[R??]
+    access(all) var odict: @{Int: R?}
+    init(_ n: Int) { self.n = n; self.child <- nil; self.arr <- []; self.dict <- {}; self.deep <- nil; self.oarr <- []; self.odict <- {} }
     access(all) fun getN(): Int { return self.n }
     access(all) fun setN(_ n: Int) { self.n = n }
     access(all) fun setChild(_ c: @R) { self.child <-! c }
@@ -27,6 +30,15 @@ const RefContract = `access(all) contract C {
     access(all) fun takeChild(): @R { let c <- self.child <- nil; return <- c! }
     access(all) fun popArr(_ i: Int): @R { return <- self.arr.remove(at: i) }
     access(all) fun dropDict(_ k: Int): @R { return <- self.dict.remove(key: k)! }
+    access(all) fun setDeep(_ c: @R) { self.deep <-! c }
+    access(all) fun pushO(_ c: @R) { self.oarr.append(<- c) }
+    access(all) fun putO(_ k: Int, _ c: @R) { self.odict[k] <-! c }
+    access(all) fun deepRef(): &R { return (&self.deep as &R??)!! }
+    access(all) fun oarrRef(_ i: Int): &R { return (&self.oarr[i] as &R??)!! }
+    access(all) fun odictRef(_ k: Int): &R { return (&self.odict[k] as &R??)!! }
+    access(all) fun takeDeep(): @R { let c <- self.deep <- nil; return <- c!! }
+    access(all) fun popO(_ i: Int): @R { return <- self.oarr.remove(at: i)!! }
+    access(all) fun dropO(_ k: Int): @R { return <- self.odict.remove(key: k)!! }
   }
   access(all) attachment A for R {
     access(all) var y: Int
@@ -50,9 +62,12 @@ type rnode struct {
 	child  *rnode
 	arr    []*rnode
 	dict   map[int]*rnode
-	att    int // -1: none, else y
+	deep   *rnode         // field deep: @R?? (two optional levels)
+	oarr   []*rnode       // field oarr: @[R??]
+	odict  map[int]*rnode // field odict: @{Int: R?} (a lookup yields R??)
+	att    int            // -1: none, else y
 	parent *rnode
-	edge   string // "child" | "arr" | "dict" (how the parent holds it); index/key looked up dynamically
+	edge   string // "child" | "arr" | "dict" | "deep" | "oarr" | "odict" (how the parent holds it); index/key looked up dynamically
 }
 
 func (x *rnode) dictKeys() []int {
@@ -64,10 +79,28 @@ func (x *rnode) dictKeys() []int {
 	return ks
 }
 
+func (x *rnode) odictKeys() []int {
+	var ks []int
+	for k := range x.odict {
+		ks = append(ks, k)
+	}
+	sort.Ints(ks)
+	return ks
+}
+
 func (x *rnode) all(out []*rnode) []*rnode {
 	out = append(out, x)
 	if x.child != nil {
 		out = x.child.all(out)
+	}
+	if x.deep != nil {
+		out = x.deep.all(out)
+	}
+	for _, c := range x.oarr {
+		out = c.all(out)
+	}
+	for _, k := range x.odictKeys() {
+		out = x.odict[k].all(out)
 	}
 	for _, c := range x.arr {
 		out = c.all(out)
@@ -110,6 +143,15 @@ func (x *rnode) shape() string {
 	for _, k := range x.dictKeys() {
 		b.WriteString("d" + x.dict[k].shape())
 	}
+	if x.deep != nil {
+		b.WriteString("D" + x.deep.shape())
+	}
+	for _, c := range x.oarr {
+		b.WriteString("A" + c.shape())
+	}
+	for _, k := range x.odictKeys() {
+		b.WriteString("O" + x.odict[k].shape())
+	}
 	b.WriteString(")")
 	return b.String()
 }
@@ -127,6 +169,8 @@ type RefCase struct {
 	Use      string `json:"use"`
 	Depth    int    `json:"depth"` // depth of the target below the root
 	Through  bool   `json:"through_container"`
+	// DoubleOptional: the target sits behind two optional levels somewhere between the holder and itself
+	DoubleOptional bool `json:"double_optional"`
 	// expectation
 	Invalid  bool     `json:"invalid"`             // the use must fail
 	FailKind string   `json:"fail_kind,omitempty"` // expected root error type
@@ -148,7 +192,7 @@ func (g *refGen) fresh(p string) string   { g.nvar++; return fmt.Sprintf("%s%d",
 
 func (g *refGen) tree(depth, budget int) *rnode {
 	g.nid++
-	x := &rnode{id: g.nid, n: 10 + g.nid, att: -1, dict: map[int]*rnode{}}
+	x := &rnode{id: g.nid, n: 10 + g.nid, att: -1, dict: map[int]*rnode{}, odict: map[int]*rnode{}}
 	if chance(g.s, 1, 4) {
 		x.att = 40 + g.nid
 	}
@@ -169,6 +213,21 @@ func (g *refGen) tree(depth, budget int) *rnode {
 		c.parent, c.edge = x, "dict"
 		x.dict[3*i+g.s.Intn(3)] = c
 	}
+	// values behind two optional levels: field R??, elements of [R??], values of {Int: R?}
+	if chance(g.s, 1, 2) && g.nid < budget {
+		x.deep = g.tree(depth+1, budget)
+		x.deep.parent, x.deep.edge = x, "deep"
+	}
+	for i, n := 0, g.s.Intn(2); i < n && g.nid < budget; i++ {
+		c := g.tree(depth+1, budget)
+		c.parent, c.edge = x, "oarr"
+		x.oarr = append(x.oarr, c)
+	}
+	if chance(g.s, 1, 3) && g.nid < budget {
+		c := g.tree(depth+1, budget)
+		c.parent, c.edge = x, "odict"
+		x.odict[g.s.Intn(5)] = c
+	}
 	return x
 }
 
@@ -187,6 +246,19 @@ func (g *refGen) build(x *rnode) string {
 	for _, k := range keys {
 		dvs = append(dvs, g.build(x.dict[k]))
 	}
+	var deepv string
+	if x.deep != nil {
+		deepv = g.build(x.deep)
+	}
+	var oavs []string
+	for _, c := range x.oarr {
+		oavs = append(oavs, g.build(c))
+	}
+	okeys := x.odictKeys()
+	var odvs []string
+	for _, k := range okeys {
+		odvs = append(odvs, g.build(x.odict[k]))
+	}
 	v := g.fresh("t")
 	if x.att >= 0 {
 		g.emit("let %s <- attach C.A(%d) to <- C.mk(%d)", v, x.att, x.n)
@@ -201,6 +273,15 @@ func (g *refGen) build(x *rnode) string {
 	}
 	for i, k := range keys {
 		g.emit("%s.put(%d, <- %s)", v, k, dvs[i])
+	}
+	if deepv != "" {
+		g.emit("%s.setDeep(<- %s)", v, deepv)
+	}
+	for _, a := range oavs {
+		g.emit("%s.pushO(<- %s)", v, a)
+	}
+	for i, k := range okeys {
+		g.emit("%s.putO(%d, <- %s)", v, k, odvs[i])
 	}
 	return v
 }
@@ -225,6 +306,27 @@ func (g *refGen) step(e string, x *rnode, method bool) string {
 			return fmt.Sprintf("%s.arrRef(%d)", e, i)
 		}
 		return fmt.Sprintf("%s.arr[%d]", e, i)
+	case "deep":
+		if method {
+			return e + ".deepRef()"
+		}
+		return e + ".deep!!"
+	case "oarr":
+		i := 0
+		for j, c := range p.oarr {
+			if c == x {
+				i = j
+			}
+		}
+		return fmt.Sprintf("%s.oarrRef(%d)", e, i)
+	case "odict":
+		k := 0
+		for kk, c := range p.odict {
+			if c == x {
+				k = kk
+			}
+		}
+		return fmt.Sprintf("%s.odictRef(%d)", e, k)
 	default:
 		k := 0
 		for kk, c := range p.dict {
@@ -249,7 +351,10 @@ func (g *refGen) pathExpr(rootRef string, x *rnode, methods bool) string {
 	afterCall := false
 	for _, c := range chain {
 		m := methods && chance(g.s, 1, 2)
-		if afterCall && c.edge != "child" {
+		if afterCall && c.edge != "child" && c.edge != "deep" {
+			m = true
+		}
+		if c.edge == "oarr" || c.edge == "odict" {
 			m = true
 		}
 		if c.edge == "dict" && !m && chance(g.s, 1, 2) {
@@ -268,7 +373,7 @@ func (g *refGen) pathExpr(rootRef string, x *rnode, methods bool) string {
 			m = true
 		}
 		e = g.step(e, c, m)
-		if m || c.edge == "child" {
+		if m || c.edge == "child" || c.edge == "deep" {
 			afterCall = true // also after a force-unwrap
 		}
 	}
@@ -305,6 +410,21 @@ func detach(x *rnode) {
 				delete(p.dict, k)
 			}
 		}
+	case "deep":
+		p.deep = nil
+	case "oarr":
+		for i, c := range p.oarr {
+			if c == x {
+				p.oarr = append(p.oarr[:i:i], p.oarr[i+1:]...)
+				break
+			}
+		}
+	case "odict":
+		for k, c := range p.odict {
+			if c == x {
+				delete(p.odict, k)
+			}
+		}
 	}
 	x.parent = nil
 }
@@ -318,7 +438,7 @@ func GenRefCase(s Src) *RefCase {
 	rv := g.build(root)
 
 	// where the root lives
-	holders := []string{"var", "arr", "dict", "opt", "storage"}
+	holders := []string{"var", "arr", "dict", "opt", "storage", "var", "opt2", "arropt"}
 	c.Holder = holders[s.Intn(len(holders))]
 	var rootRef string
 	switch c.Holder {
@@ -337,6 +457,14 @@ func GenRefCase(s Src) *RefCase {
 	case "opt":
 		g.emit("var hold: @C.R? <- %s", rv)
 		rootRef = "(&hold as &C.R?)!"
+		g.owners = append(g.owners, "hold")
+	case "opt2":
+		g.emit("var hold: @C.R?? <- %s", rv)
+		rootRef = "(&hold as &C.R??)!!"
+		g.owners = append(g.owners, "hold")
+	case "arropt":
+		g.emit("var hold: @[C.R??] <- [<- C.mk(1), <- %s]", rv)
+		rootRef = "(&hold[1] as &C.R??)!!"
 		g.owners = append(g.owners, "hold")
 	case "storage":
 		g.emit("a.storage.save(<- %s, to: /storage/root)", rv)
@@ -367,8 +495,16 @@ func GenRefCase(s Src) *RefCase {
 			c.Through = true
 		}
 	}
-	if c.Holder == "arr" || c.Holder == "dict" || c.Holder == "opt" {
+	if c.Holder != "var" && c.Holder != "storage" {
 		c.Through = true
+	}
+	for p := target; p.parent != nil; p = p.parent {
+		if p.edge == "deep" || p.edge == "oarr" || p.edge == "odict" {
+			c.DoubleOptional = true
+		}
+	}
+	if c.Holder == "opt2" || c.Holder == "arropt" {
+		c.DoubleOptional = true
 	}
 	toAtt := target.att >= 0 && chance(s, 1, 3) && !(c.Holder == "storage" && target == root)
 	expr := g.pathExpr(rootRef, target, true)
@@ -480,7 +616,7 @@ func GenRefCase(s Src) *RefCase {
 	for _, o := range g.owners {
 		g.emit("destroy %s", o)
 	}
-	src := "import C from 0x1\ntransaction {\n  prepare(a: auth(Storage) &Account) {\n" + strings.Join(g.lines, "\n") + "\n  }\n}\n"
+	src := "import C from 0x1\naccess(all) fun passOO(_ x: @C.R??): @C.R?? { return <- x }\naccess(all) fun passAO(_ x: @[C.R??]): @[C.R??] { return <- x }\ntransaction {\n  prepare(a: auth(Storage) &Account) {\n" + strings.Join(g.lines, "\n") + "\n  }\n}\n"
 	c.Prog = prog.History{Origin: "resgen/refs", Steps: []prog.Step{
 		{Kind: prog.Deploy, Name: "C", Source: RefContract, Signers: []uint64{1}},
 		{Kind: prog.Tx, Source: src, Signers: []uint64{1}, MayFail: c.Invalid},
@@ -558,6 +694,27 @@ func (g *refGen) relocate(c *RefCase, root, target *rnode, rootRef string) bool 
 			}
 			c.Reloc = "method-remove-array-element"
 			g.emit("let %s <- %s.popArr(%d)", x, pe, i)
+		case "deep":
+			c.Reloc = "method-take-double-optional"
+			g.emit("let %s <- %s.takeDeep()", x, pe)
+		case "oarr":
+			i := 0
+			for j, e := range victim.parent.oarr {
+				if e == victim {
+					i = j
+				}
+			}
+			c.Reloc = "method-remove-optional-array-element"
+			g.emit("let %s <- %s.popO(%d)", x, pe, i)
+		case "odict":
+			k := 0
+			for kk, e := range victim.parent.odict {
+				if e == victim {
+					k = kk
+				}
+			}
+			c.Reloc = "method-remove-optional-dict-element"
+			g.emit("let %s <- %s.dropO(%d)", x, pe, k)
 		default:
 			k := 0
 			for kk, e := range victim.parent.dict {
@@ -584,7 +741,7 @@ func (g *refGen) relocate(c *RefCase, root, target *rnode, rootRef string) bool 
 	switch c.Holder {
 	case "var":
 		forms := []string{"move-var", "destroy", "into-array", "into-dict", "into-optional", "save", "function-consume", "function-pass",
-			"swap", "force-assign", "nest-in-resource", "attach"}
+			"swap", "force-assign", "nest-in-resource", "attach", "append-to-array", "into-double-optional", "function-pass"}
 		c.Reloc = forms[s.Intn(len(forms))]
 		if c.Reloc == "attach" && root.att >= 0 {
 			c.Reloc = "move-var"
@@ -628,6 +785,13 @@ func (g *refGen) relocate(c *RefCase, root, target *rnode, rootRef string) bool 
 		case "attach":
 			g.emit("let r2 <- attach C.A(5) to <- r")
 			own("r2")
+		case "append-to-array":
+			g.emit("var c2: @[C.R] <- []")
+			g.emit("c2.append(<- r)")
+			own("c2")
+		case "into-double-optional":
+			g.emit("let c2: @C.R?? <- r")
+			own("c2")
 		}
 	case "arr":
 		forms := []string{"array-remove", "move-container", "destroy-container", "swap-element", "save-container", "remove-sibling-before"}
@@ -706,6 +870,53 @@ func (g *refGen) relocate(c *RefCase, root, target *rnode, rootRef string) bool 
 		case "double-transfer":
 			g.emit("let r2 <- hold <- nil")
 			own("r2")
+		}
+	case "opt2":
+		forms := []string{"move-optional", "destroy-optional", "double-transfer", "function-pass", "into-array"}
+		c.Reloc = forms[s.Intn(len(forms))]
+		switch c.Reloc {
+		case "move-optional":
+			drop("hold")
+			g.emit("let hold2 <- hold")
+			own("hold2")
+		case "destroy-optional":
+			drop("hold")
+			g.emit("destroy hold")
+		case "double-transfer":
+			g.emit("let r2 <- hold <- nil")
+			own("r2")
+		case "function-pass":
+			drop("hold")
+			g.emit("let hold2 <- passOO(<- hold)")
+			own("hold2")
+		case "into-array":
+			drop("hold")
+			g.emit("let hold2: @[C.R??] <- [<- hold]")
+			own("hold2")
+		}
+	case "arropt":
+		forms := []string{"array-remove", "move-container", "destroy-container", "function-pass", "remove-sibling-before"}
+		c.Reloc = forms[s.Intn(len(forms))]
+		switch c.Reloc {
+		case "array-remove":
+			g.emit("let r2 <- hold.remove(at: 1)")
+			own("r2")
+		case "move-container":
+			drop("hold")
+			g.emit("let hold2 <- hold")
+			own("hold2")
+		case "destroy-container":
+			drop("hold")
+			g.emit("destroy hold")
+		case "function-pass":
+			drop("hold")
+			g.emit("let hold2 <- passAO(<- hold)")
+			own("hold2")
+		case "remove-sibling-before":
+			g.emit("let r2 <- hold.remove(at: 0)")
+			own("r2")
+			c.Relation = "other"
+			return false
 		}
 	case "storage":
 		forms := []string{"load", "load-and-restore", "replace-same-type", "replace-other-type"}
